@@ -60,6 +60,7 @@ static void slack_check_all(void){ int i; for (i = 0; i < nblk; i++) if (blk[i].
 static int find_blk(const void *p){ int i; for (i = 0; i < nblk; i++) if (blk[i].base && (const char *)p >= blk[i].ptr && (const char *)p < blk[i].ptr + (blk[i].n ? blk[i].n : 1)) return i; return -1; }
 void *uk_malloc(size_t n){ static int reg; if (!reg){ atexit(slack_check_all); reg = 1; } live++; return fenced(n, 1); }
 void uk_free(void *p){ int i; if (!p) return; i = find_blk(p); if (i < 0 || !blk[i].heap || blk[i].ptr != (char *)p) fail("HEAP", "free of a pointer that is not the base of a live block of this manager"); slack_check(i); live--; munmap(blk[i].base, blk[i].maplen); blk[i].base = 0; }
+size_t uk_blocksize(const void *p){ int i = find_blk(p); if (i < 0 || !blk[i].heap || blk[i].ptr != (const char *)p) fail("HEAP", "realloc of a pointer that is not the base of a live block"); return blk[i].n; }
 long uk_live(void){ return live; }
 long uk_live_libc(void){ return libc_live; }
 long uk_libc_calls(void){ return libc_calls; }
